@@ -447,6 +447,11 @@ class WebSocket(object):
         for extension in extensions:
             extension_token, options = parse_extension(extension)
             if extension_token == 'permessage-deflate':
+                if not self.compress:
+                    # We didn't offer the extension, it isn't negotiated
+                    # just because the server lists it
+                    log.debug('%r ignored (not offered)', extension)
+                    continue
                 enabled_extensions.add('permessage-deflate')
                 compression = Deflate.from_options(options)
                 self.state.compression = compression
